@@ -642,7 +642,11 @@ mod fuse {
         fn lin_log2_seg_size(arity: usize, n: usize) -> u32 {
             match arity {
                 3 => {
-                    debug_assert!(n <= 2 * Self::HALF_MAX_LIN_SHARD_SIZE);
+                    // The argument is the size of the largest shard, which the
+                    // builder accepts up to 1% above the average
+                    debug_assert!(
+                        n <= 2 * Self::HALF_MAX_LIN_SHARD_SIZE + Self::HALF_MAX_LIN_SHARD_SIZE / 50
+                    );
                     (0.85 * (n.max(1) as f64).ln()).floor().max(1.) as u32
                 }
                 _ => unimplemented!(),
